@@ -685,17 +685,20 @@ def run_check(prop, tier, base, replay_path=None):
     if nondet:
         verd.add_harness(f"determinism self-test: {nondet}/{len(det)} requests changed schedule digests on re-run")
 
+    # one report per invariant id: the witness is the request with the cheapest kernel; the other
+    # affected requests are listed in the detail (minimising every request separately costs a
+    # rebuild per candidate and tells nothing new)
     bykey = defaultdict(list)
     for r in results:
         for v in r["viol"]:
-            bykey[v["key"] + "/" + r["name"]].append((r, v))
+            bykey[v["key"]].append((r, v))
     n = 0
-    for fullkey in sorted(bykey):
-        key = fullkey.split("/")[0]
-        kf = key
-        r, v = bykey[fullkey][0]
-        if verd.is_known(fullkey) or verd.is_known(kf):
-            verd.add(fullkey if verd.is_known(fullkey) else kf, None, "")
+    for key in sorted(bykey):
+        wit = sorted(bykey[key], key=lambda rv: (sum(rv[0]["accesses_per_kernel"].values()), rv[0]["name"]))
+        r, v = wit[0]
+        affected = sorted({x[0]["name"] + x[0]["opt"] for x in wit})
+        if verd.is_known(key):
+            verd.add(key, None, "")
             continue
         scn = v["scn"]
         small = minimise(r["name"], r["opt"], base, scn, key, workroot) if scn else None
@@ -704,13 +707,14 @@ def run_check(prop, tier, base, replay_path=None):
         payload = {"engine": "kernsim", "property": prop, "invariant": key, "request": r["name"],
                    "opt": r["opt"], "base": base, "scenario": small, "original_scenario": scn,
                    "digest": out["digests"][0] if out["digests"] else None, "src_sha": r["src_sha"],
-                   "detail": hit[0]["detail"] if hit else v["detail"]}
+                   "detail": hit[0]["detail"] if hit else v["detail"], "affected_requests": affected}
         path = core.write_replay(prop, base, n, payload)
         n += 1
         if not hit:
-            verd.add_harness(f"minimised scenario for {fullkey} did not reproduce (replay {path})")
+            verd.add_harness(f"minimised scenario for {key} did not reproduce (replay {path})")
         else:
-            verd.add(fullkey, path, hit[0]["detail"])
+            verd.add(key, path, hit[0]["detail"] + f"\n  affected requests ({len(affected)}): "
+                     + ", ".join(affected[:12]) + (" ..." if len(affected) > 12 else ""))
 
     core.dump_digests((r["name"] + r["opt"], hashlib.sha1("".join(r["digests"]).encode()).hexdigest())
                       for r in results)
